@@ -57,6 +57,17 @@ def tcp_pattern(topo, proto, up, origin, pattern, idle, tag):
         o.recv_some(timeout=1.0, want=10)
         o.send(so[:10]); sent["s2c"] = 10
         c.recv_some(timeout=1.0, want=10)
+    elif pattern == "burst_fin":
+        # payload both ways, silence, then one side half-closes without sending anything: an end of stream is not traffic -
+        # the period still counts from the last payload byte
+        c.send(sc[:10]); sent["c2s"] = 10
+        o.recv_some(timeout=1.0, want=10)
+        o.send(so[:10]); sent["s2c"] = 10
+        c.recv_some(timeout=1.0, want=10)
+        t_last = time.time()
+        time.sleep(max(idle, 1) * 0.75)
+        c.fin()
+        res["fin_after_s"] = round(time.time() - t_last, 2)
     # now silence: wait for the proxy to close (or not)
     wait = (idle + 6.0) if idle > 0 else 4.0
     t_sil = time.time()
@@ -67,13 +78,19 @@ def tcp_pattern(topo, proto, up, origin, pattern, idle, tag):
     res["closed_after_s"] = round(time.time() - t_sil, 2) if closed else None
     ending = {"c2s": "open", "s2c": "open"}
     finned = {"c2s": False, "s2c": False}
+    if pattern == "burst_fin":
+        ending["c2s"] = "fin"
+        finned["c2s"] = True
     if not closed:
         # positive control: the tunnel still works, then close it gracefully
-        c.send(sc[sent["c2s"]:sent["c2s"] + 1]); sent["c2s"] += 1
-        o.recv_some(timeout=1.5, want=1)
+        if not finned["c2s"]:
+            c.send(sc[sent["c2s"]:sent["c2s"] + 1]); sent["c2s"] += 1
+            o.recv_some(timeout=1.5, want=1)
         o.send(so[sent["s2c"]:sent["s2c"] + 1]); sent["s2c"] += 1
         c.recv_some(timeout=1.5, want=1)
-        c.fin(); o.recv_until_eof(2.0); o.fin(); c.recv_until_eof(2.0)
+        if not finned["c2s"]:
+            c.fin()
+        o.recv_until_eof(2.0); o.fin(); c.recv_until_eof(2.0)
         ending = {"c2s": "fin", "s2c": "fin"}
         finned = {"c2s": True, "s2c": True}
     else:
@@ -156,7 +173,7 @@ def run(tier, t0):
         ths = []
         k = 0
         for proto, up in listeners:
-            pats = ["silent", "burst", "trickle", "trickle_s2c"] if (proto, up) in (("http", "direct"), ("socks5", "direct")) or thorough else ["silent"]
+            pats = ["silent", "burst", "trickle", "trickle_s2c", "burst_fin"] if (proto, up) in (("http", "direct"), ("socks5", "direct")) or thorough else ["silent"]
             if proto == "reverse":
                 pats = ["silent"]      # one origin connection at a time on the reverse listener
             for pattern in pats:
